@@ -56,7 +56,7 @@ func (c12) Runs(t Tier) int {
 }
 func (c12) RecordWidths() map[string]int { return nil }
 func (c12) RequiredProbes() []string {
-	return []string{"missing-interior-file-block", "missing-last-leaf", "missing-first-leaf", "missing-last-link-shard", "missing-nested-shard", "lookup-blocked", "lookup-not-blocked-under-fault", "kth-load-transient", "subset-fault", "hamt-depth>=3", "dedup-file-block-faulted", "missing-empty-block", "repeated-lookups-same-node", "file-reread-after-recovery", "iterate-again-after-recovery", "well-known-error-value", "file-without-blocksizes", "preload-under-fault"}
+	return []string{"missing-interior-file-block", "missing-last-leaf", "missing-first-leaf", "missing-last-link-shard", "missing-nested-shard", "lookup-blocked", "lookup-not-blocked-under-fault", "kth-load-transient", "subset-fault", "hamt-depth>=3", "dedup-file-block-faulted", "missing-empty-block", "repeated-lookups-same-node", "file-reread-after-recovery", "iterate-again-after-recovery", "well-known-error-value", "file-without-blocksizes", "preload-under-fault", "linksystem-with-node-reifier"}
 }
 
 type c12Scenario struct {
@@ -257,6 +257,10 @@ func (c12) runFile(ts *tape.Set, tier Tier) *Result {
 	useAsBytes := shape.Intn(2) == 0
 	bufSeed := shape.Raw()
 	subsetSeed := shape.Raw()
+	nodeReifier := shape.Intn(3) == 2
+	if nodeReifier {
+		res.probe("linksystem-with-node-reifier")
+	}
 
 	st := store.New()
 	root, _, err := gen.WriteFile(st, spec)
@@ -339,7 +343,7 @@ func (c12) runFile(ts *tape.Set, tier Tier) *Result {
 		if p != nil {
 			hits = p.install(st)
 		}
-		w := world.New(st, false)
+		w := newWorld(st, false, nodeReifier)
 		br := tape.NewSplitMix(bufSeed)
 		panicked, site, pmsg = guard(func() {
 			n, how, err := openFile(w, root, via)
